@@ -2,6 +2,7 @@ package rules
 
 import (
 	"fmt"
+	"go/token"
 	"go/types"
 	"strings"
 
@@ -27,6 +28,8 @@ type tbl struct {
 	errN      int
 	syncMaps  map[absint.Value]*syncMapModel // sync.Map objects by receiver identity
 	fieldMaps map[string]*syncMapModel       // ... and those held by value in a field, by owner and field name
+	// sortStrictBad, when set, collects violations of strictness of a sort.Interface's Less (checked before sorting)
+	sortStrictBad *[]string
 }
 
 type syncMapModel struct {
@@ -72,6 +75,21 @@ func newTbl(c *core.Ctx) *tbl {
 	return t
 }
 
+// goTypeTok: a reflect.Type value standing for a Go type that is written in the source.
+func goTypeTok(T types.Type) *absint.Tok {
+	tok := absint.NewTok("reflect.Type("+core.Short(T.String())+")", "gotype")
+	tok.Attr["gotype"] = T
+	return tok
+}
+
+func goTypeOf(v absint.Value) types.Type {
+	if tok, ok := v.(*absint.Tok); ok && tok.Class == "gotype" {
+		T, _ := tok.Attr["gotype"].(types.Type)
+		return T
+	}
+	return nil
+}
+
 func (t *tbl) newErr(what string) *absint.Tok {
 	t.errN++
 	return absint.NewTok(fmt.Sprintf("err%d:%s", t.errN, what), "error")
@@ -85,6 +103,20 @@ func isErrTok(v absint.Value) bool {
 func (t *tbl) Call(ip *absint.Interp, site ssa.CallInstruction, args []absint.Value) (absint.Value, bool) {
 	com := site.Common()
 	if com.IsInvoke() {
+		// reflect.Type values that stand for a Go type known from the source (`reflect.TypeOf((*I)(nil)).Elem()`)
+		if gt := goTypeOf(first(args)); gt != nil && com.Method.Name() == "Elem" && len(args) == 1 {
+			if p, ok := gt.Underlying().(*types.Pointer); ok {
+				return goTypeTok(p.Elem()), true
+			}
+		}
+		if com.Method.Name() == "Implements" && len(args) == 2 && goTypeOf(args[1]) != nil && types.IsInterface(goTypeOf(args[1])) {
+			// T.Implements(<interface I>) asks what reflectx.IsTypeImplement(T, new(I)) asks
+			if _, own := t.invokeN["Implements"]; !own {
+				if fn := t.c.Func("util/reflectx", "IsTypeImplement"); fn != nil && t.callee[fn] != nil {
+					return t.callee[fn](ip, []absint.Value{args[0], goTypeTok(types.NewPointer(goTypeOf(args[1])))}), true
+				}
+			}
+		}
 		if h, ok := t.invoke[com.Method]; ok {
 			return h(ip, args), true
 		}
@@ -138,7 +170,35 @@ func (t *tbl) Call(ip *absint.Interp, site ssa.CallInstruction, args []absint.Va
 	if h, ok := t.callee[cal]; ok {
 		return h(ip, args), true
 	}
+	if cal.Blocks != nil && cal.Name() == "String" && len(args) == 1 && pureTextFn(t.c, cal, 0) {
+		// a String() method that only reads and formats: when the model cannot follow it (a field nobody set up),
+		// its result is a text the model does not know - it has no effect that could matter
+		var ret absint.Value
+		func() {
+			defer func() {
+				if r := recover(); r != nil {
+					if _, ok := r.(*absint.Undecided); ok {
+						ret = &absint.Opaque{Why: "text"}
+						return
+					}
+					panic(r)
+				}
+			}()
+			ret = ip.CallFunction(cal, args, nil)
+		}()
+		return ret, true
+	}
 	full := cal.String()
+	if full == "reflect.TypeOf" && len(com.Args) == 1 {
+		// reflect.TypeOf((*I)(nil)): the type is written in the source
+		if mi, ok := com.Args[0].(*ssa.MakeInterface); ok {
+			if k, ok := mi.X.(*ssa.Const); ok && k.IsNil() {
+				if p, ok := k.Type().Underlying().(*types.Pointer); ok && types.IsInterface(p.Elem()) {
+					return goTypeTok(k.Type()), true
+				}
+			}
+		}
+	}
 	if h, ok := t.ext[full]; ok {
 		return h(ip, args), true
 	}
@@ -154,6 +214,18 @@ func (t *tbl) Call(ip *absint.Interp, site ssa.CallInstruction, args []absint.Va
 		return nil, true // synchronisation has no effect on a sequential schedule
 	case full == "fmt.Sprintf" || full == "fmt.Sprint":
 		return &absint.Opaque{Why: "text"}, true
+	case full == "sort.Sort" || full == "sort.Stable":
+		// the standard sorts over a Len/Less/Swap value, modelled as a stable insertion sort under the value's own
+		// interpreted methods (as for sort.Slice: the standard library's algorithm is trusted to sort)
+		return t.sortInterface(ip, args[0]), true
+	case strings.HasPrefix(full, "(*sync/atomic.") || strings.HasPrefix(full, "sync/atomic."):
+		// counters nothing decides on: a value the model does not know
+		if cal.Signature.Results().Len() == 0 {
+			return nil, true
+		}
+		return &absint.Opaque{Why: "counter"}, true
+	case full == "time.Now" || full == "time.Since" || strings.HasPrefix(full, "(time.Time).") || strings.HasPrefix(full, "(time.Duration)."):
+		return &absint.Opaque{Why: "time"}, true
 	case strings.HasPrefix(full, "(*strings.Builder)."):
 		// message building: the text is opaque, writing never fails
 		switch cal.Name() {
@@ -264,6 +336,67 @@ func wrapArg(full string, args []absint.Value) (absint.Value, bool) {
 	return nil, false
 }
 
+// sortInterface sorts a value through its own Len / Less / Swap methods (interpreted).
+func (t *tbl) sortInterface(ip *absint.Interp, v absint.Value) absint.Value {
+	var gt types.Type
+	switch x := v.(type) {
+	case *absint.List:
+		gt = x.GoType
+	case *absint.Tok:
+		gt, _ = x.Attr["gotype"].(types.Type)
+	}
+	if gt == nil {
+		panic(&absint.Undecided{Msg: "sort.Sort of a value whose type the model does not know: " + absint.Show(v)})
+	}
+	method := func(name string) *ssa.Function {
+		// (an object built by a struct literal is known by its address: a value-receiver method is looked up on the
+		// struct type itself first)
+		cands := []types.Type{gt}
+		if p, ok := gt.Underlying().(*types.Pointer); ok {
+			cands = []types.Type{p.Elem(), gt}
+		}
+		for _, T := range cands {
+			var pkg *types.Package
+			if n := core.NamedOf(T); n != nil {
+				pkg = n.Obj().Pkg()
+			}
+			if sel := t.c.Prog.MethodSets.MethodSet(T).Lookup(pkg, name); sel != nil {
+				if fn := t.c.Prog.MethodValue(sel); fn != nil && fn.Blocks != nil {
+					return fn
+				}
+			}
+		}
+		panic(&absint.Undecided{Msg: "sort.Sort: " + gt.String() + " has no method " + name + " the model can follow"})
+	}
+	lenM, lessM, swapM := method("Len"), method("Less"), method("Swap")
+	n, ok := ip.CallFunction(lenM, []absint.Value{v}, nil).(absint.Int)
+	if !ok {
+		panic(&absint.Undecided{Msg: "sort.Sort: Len() is not a known number"})
+	}
+	less := func(i, j int) bool {
+		b, ok := ip.CallFunction(lessM, []absint.Value{v, absint.Int(i), absint.Int(j)}, nil).(absint.Bool)
+		if !ok {
+			panic(&absint.Undecided{Msg: "sort.Sort: Less() did not return a known boolean"})
+		}
+		return bool(b)
+	}
+	if t.sortStrictBad != nil {
+		for i := 0; i < int(n); i++ {
+			for j := 0; j <= i; j++ {
+				if lij, lji := less(i, j), less(j, i); lij && lji {
+					*t.sortStrictBad = append(*t.sortStrictBad, fmt.Sprintf("Less(%d,%d) and Less(%d,%d) both hold: not a strict order", i, j, j, i))
+				}
+			}
+		}
+	}
+	for i := 1; i < int(n); i++ {
+		for j := i; j > 0 && less(j, j-1); j-- {
+			ip.CallFunction(swapM, []absint.Value{v, absint.Int(j), absint.Int(j - 1)}, nil)
+		}
+	}
+	return nil
+}
+
 func (t *tbl) TypeTest(ip *absint.Interp, v absint.Value, T types.Type) (bool, bool) {
 	if t.typeTestC != nil {
 		return t.typeTestC(ip, v, T)
@@ -353,10 +486,17 @@ func smallModelCheck(c *core.Ctx, r *core.Report, rule, cons string, fn *ssa.Fun
 				case *ssa.BinOp:
 					switch x.Op.String() {
 					case "<", "<=", ">", ">=", "==", "!=":
-						for _, side := range []ssa.Value{x.X, x.Y} {
+						for si, side := range []ssa.Value{x.X, x.Y} {
 							k, ok := core.ConstInt(side)
 							if !ok {
 								continue
+							}
+							other := x.Y
+							if si == 1 {
+								other = x.X
+							}
+							if isConstCounter(other) {
+								continue // a local counter that starts at a constant and moves in constant steps: independent of the input's size
 							}
 							if bt, isB := side.Type().(*types.Basic); !isB || (bt.Kind() != types.Int && bt.Kind() != types.UntypedInt) {
 								continue
@@ -382,6 +522,43 @@ func smallModelCheck(c *core.Ctx, r *core.Report, rule, cons string, fn *ssa.Fun
 	} else {
 		r.Hold(rule, cons+":small-model", c.FnPos(fn), fmt.Sprintf("no length/counter threshold above the table bound %d in the subject and its in-scope callees (%d functions): behaviour beyond the bound is uniform", bound, len(seen)))
 	}
+}
+
+// isConstCounter: a loop variable whose every incoming value is a constant or itself plus a constant.
+func isConstCounter(v ssa.Value) bool {
+	phi, ok := v.(*ssa.Phi)
+	if !ok {
+		return false
+	}
+	for _, e := range phi.Edges {
+		if _, isK := e.(*ssa.Const); isK {
+			continue
+		}
+		bo, isBO := e.(*ssa.BinOp)
+		if !isBO || (bo.Op != token.ADD && bo.Op != token.SUB) {
+			return false
+		}
+		if _, isK := bo.Y.(*ssa.Const); !isK {
+			return false
+		}
+		if bo.X != ssa.Value(phi) {
+			if p2, isPhi := bo.X.(*ssa.Phi); !isPhi || !isConstCounterVia(p2, phi) {
+				return false
+			}
+		}
+	}
+	return true
+}
+
+// isConstCounterVia: p is a phi that merges only the counter itself and counter±constant values (continue paths).
+func isConstCounterVia(p, counter *ssa.Phi) bool {
+	for _, e := range p.Edges {
+		if e == ssa.Value(counter) {
+			continue
+		}
+		return false
+	}
+	return true
 }
 
 // valueOfType finds the abstract value that plays Go type t: what pick knows, or - for an unexported struct type (or a
@@ -452,4 +629,91 @@ func layoutArgs(fn *ssa.Function, pick func(types.Type) absint.Value) []absint.V
 		args = append(args, v)
 	}
 	return args
+}
+
+func first(vs []absint.Value) absint.Value {
+	if len(vs) == 0 {
+		return nil
+	}
+	return vs[0]
+}
+
+// pureTextFn: fn returns one string and, with the in-scope functions it calls, does nothing but read and format:
+// no store outside its own locals, no map update, no send, no goroutine, no defer, no call of a function value, and
+// only formatting / reflection read calls outside the module.
+func pureTextFn(c *core.Ctx, fn *ssa.Function, depth int) bool {
+	key := "pure-text:" + fn.String()
+	if depth == 0 {
+		if v, ok := c.Memo.Load(key); ok {
+			return v.(bool)
+		}
+	}
+	ok := pureTextBody(c, fn, depth)
+	if depth == 0 {
+		c.Memo.Store(key, ok)
+	}
+	return ok
+}
+
+func pureTextBody(c *core.Ctx, fn *ssa.Function, depth int) bool {
+	if fn.Blocks == nil || depth > 4 {
+		return false
+	}
+	if depth == 0 {
+		res := fn.Signature.Results()
+		if res.Len() != 1 {
+			return false
+		}
+		if b, ok := res.At(0).Type().Underlying().(*types.Basic); !ok || b.Info()&types.IsString == 0 {
+			return false
+		}
+	}
+	for _, b := range fn.Blocks {
+		for _, in := range b.Instrs {
+			switch x := in.(type) {
+			case *ssa.Store:
+				// stores into the function's own temporaries only (variadic argument arrays, local variables)
+				addr := x.Addr
+				if ia, ok := addr.(*ssa.IndexAddr); ok {
+					addr = ia.X
+				}
+				if _, ok := addr.(*ssa.Alloc); !ok {
+					return false
+				}
+			case *ssa.MapUpdate, *ssa.Send, *ssa.Go, *ssa.Defer, *ssa.MakeClosure:
+				return false
+			case *ssa.Call:
+				com := x.Common()
+				if _, isB := com.Value.(*ssa.Builtin); isB {
+					continue
+				}
+				if com.IsInvoke() {
+					switch com.Method.Name() {
+					case "String", "Error", "Name", "Kind", "Elem", "PkgPath":
+						continue
+					}
+					return false
+				}
+				cal := com.StaticCallee()
+				if cal == nil {
+					return false
+				}
+				if c.InScope(cal) {
+					if !pureTextBody(c, cal, depth+1) {
+						return false
+					}
+					continue
+				}
+				full := cal.String()
+				switch {
+				case full == "fmt.Sprintf" || full == "fmt.Sprint" || strings.HasPrefix(full, "strings.") || strings.HasPrefix(full, "strconv."):
+				case strings.HasPrefix(full, "(reflect.Value).") && !strings.Contains(full, "Set") && !strings.Contains(full, "Call"):
+				case full == "reflect.TypeOf" || full == "reflect.ValueOf" || full == "reflect.Indirect":
+				default:
+					return false
+				}
+			}
+		}
+	}
+	return true
 }
